@@ -364,3 +364,35 @@ PROPS["C12"]["tests"].append(dict(name="TestVF_C12Hostile", env=dict(VERIF_CASE_
 # native fuzz targets (thorough tier only; Go's fuzzer cannot be pinned to a seed, a saved crasher is the reproducible unit)
 for _pid in ["C03", "C04", "C06", "C15", "C16", "C20"]:
     PROPS[_pid]["tests"].append(dict(name="FuzzVF_%s" % _pid, rapid=False, thorough=dict(shards=1, timeout=400, fuzz="90s", par=16)))
+
+
+# ---- amendments to the level texts after the third round of seeded changes (the checks were strengthened; see DESIGN §8.2) ----
+def _amend(pid, old, new):
+    t = PROPS[pid]["level_text"]
+    assert old in t, (pid, old)
+    PROPS[pid]["level_text"] = t.replace(old, new, 1)
+
+
+_amend("C01", "reported names == written names.",
+       "reported names == written names. A many-files test (180 files, protocols 1-4, descriptor census in-process and the real binaries under RLIMIT_NOFILE 80) "
+       "covers descriptors that grow with the file count.")
+_amend("C02", "insert 1-8 generated bytes, truncate the tail) at offsets",
+       "insert 1-8 generated bytes, truncate the tail, whole-line loss / duplication; and cooperating pairs: a SIZE or NUM changed towards the receiver with its echo "
+       "repaired towards the sender) at offsets")
+_amend("C09", "x both receiving roles x delete-afterwards.",
+       "x both receiving roles x delete-afterwards x how the user spelled the destination (clean, trailing separator, './', 'x/../', doubled separator) x empty / non-empty destination.")
+_amend("C09", "of everything outside the destination is unchanged.",
+       "of everything outside the destination is unchanged and the destination directory itself still exists.")
+_amend("C10", "binary / old protocols; destinations", "binary / old protocols / two of them over the TCP tunnel; destinations")
+_amend("C11", "through a /dev/full symlink under -y).",
+       "through a /dev/full symlink under -y; over the tunnel: either direction of the TCP connection silent, the connection broken).")
+_amend("C11", "is inside transfer code,", "is inside transfer code or inside a zstd stream the transfer opened,")
+_amend("C15", "never creates a path that is not in the source.",
+       "never creates a path that is not in the source. Every piece is handed to the writer in one reused buffer that is overwritten after the call.")
+_amend("C17", "in-band junk both ways after the handshake.",
+       "in-band junk both ways once the server has answered over the tunnel, and an impostor (the client's own dial reaches something that answers with one of ten wrong "
+       "greetings and forged lines).")
+_amend("C17", "a second right greeting never receives protocol bytes;", "a second right greeting never receives protocol bytes; the client never writes to an impostor;")
+_amend("C19", "and typed input reaches the server.",
+       "and typed input reaches the server. A second test covers sessions that nothing ends but the 20 s inactivity timers (silent or mute lingering helper, quiet server or "
+       "goodbye-then-silence, no Ctrl-C): an end message within 27 s, then the same hand-back checks.")
